@@ -213,6 +213,16 @@ def check(rep, ctx):
                    necessary_because="isKRaftController must come out as is_k_raft_controller, KRaftVersionRecord as package k_raft_version_record")
     for row in naming_rows(ctx):
         rep.check(R_N, row["ok"], construct=row["construct"], stmt=row["stmt"], message=row["message"], file=row["file"], line=row["line"])
+    from ..gen_tables import special_name_rows
+    R_SN = rep.rule("C04-c-special-names", "the parser's name-based special cases (ErrorCode, ...Ms durations and timestamps) give every shipped scalar field "
+                   "the kafka type it ships with", floor=250)
+    for row in special_name_rows(ctx):
+        rep.check(R_SN, row["ok"], construct=row["construct"], stmt=row["stmt"], message=row["message"], file=row["file"], line=row["line"])
+    from ..gen_tables import custom_type_rows
+    R_CT = rep.rule("C04-c-custom-types", "the definition emitted for every shipped custom type is a subclass of the shipped base", floor=5)
+    for row in custom_type_rows(ctx):
+        rep.check(R_CT, row["ok"], construct="codegen.generate_schema:CustomTypeDef.get_definition", stmt=row["case"], message=row["message"],
+                  file="codegen/generate_schema.py", line=0)
     rep.extra.update(modules=len(S.modules), classes=len(S.classes), reference=str(ref["build_tag"]), baseline_differences=len(diffs))
     rep.assumptions.append("the schema of the pinned commit is the generator's output for Kafka 3.9.0 (the reference is frozen from it)")
     rep.trusted_base += ["/verif/reference/schema-3.9.0.json.gz", "/verif/spec/api_pins.json", "kverif/spec.py API key table"]
